@@ -3424,8 +3424,23 @@ Boolean PopSymbol(tStrComp const* pSymName, tStrComp const* pStackName) {
         return False;
     }
 
-    Elem             = LStack->Contents;
-    pDest->SymWert   = Elem->Contents;
+    Elem = LStack->Contents;
+
+    /* a constant (EQU, label) must not change: only accept its own value */
+
+    if (!pDest->Changeable
+        && ((pDest->SymWert.Typ != Elem->Contents.Typ)
+            || ((Elem->Contents.Typ == TempInt)
+                && (pDest->SymWert.Contents.Int != Elem->Contents.Contents.Int))
+            || ((Elem->Contents.Typ == TempFloat)
+                && (pDest->SymWert.Contents.Float != Elem->Contents.Contents.Float))
+            || ((Elem->Contents.Typ == TempString)
+                && as_nonz_dynstr_cmp(
+                        &pDest->SymWert.Contents.str, &Elem->Contents.Contents.str)))) {
+        WrStrErrorPos(ErrNum_ConstantRedefinedAsVariable, pSymName);
+    } else {
+        pDest->SymWert = Elem->Contents;
+    }
     LStack->Contents = Elem->Next;
     if (!LStack->Contents) {
         if (!PStack) {
